@@ -143,6 +143,7 @@ def generate(rng: random.Random, tier: str) -> dict:
         events.append({"op": "step", "g": g})
         prev = mask
     trace["events"] = events
+    trace["check_schedule_invariance"] = tier == "thorough" or rng.random() < 0.25
     return trace
 
 
@@ -183,6 +184,7 @@ def execute(trace: dict) -> Outcome:
     v = c08.evaluate_sharded(trace, sim, outs, ID, probes, w["kind"])
     if v is None and sim.outcome == "ok":
         v = check_partition(trace, outs, probes)
+    v = v or c08.schedule_invariance(trace, sim, outs, ID, probes)
     feats = c06.world_features(trace)
     ranges = tuple(tuple(map(tuple, o.extra.get("ranges") or [])) for o in outs)
     proper = any(0 < (e - s) < math.prod(trace["params"][pi]["shape"]) for o in outs for pi, (s, e) in enumerate(o.extra.get("ranges") or []))
